@@ -67,7 +67,7 @@ class ApplyHistory(Machine):
                        "batch_middle_fails", "batch_gt_n", "batch_not_dividing", "exception_then_success",
                        "mask_checked", "apply_shape", "constrain_batched", "set_target_between_applies",
                        "out_of_domain_mix", "apply_on_copy", "integer_dtype_buffer", "non_contiguous_view_input", "pseudoinverse_of_used_transform",
-                       "parameters_updated_in_place_between_applies", "earlier_result_still_valid",
+                       "parameters_updated_in_place_between_applies", "earlier_result_still_valid", "caller_edited_an_earlier_result_in_place",
                        "composition_result_discarded_between_applies")
 
     @classmethod
@@ -89,7 +89,7 @@ class ApplyHistory(Machine):
         if r < 0.62:
             return {"op": "apply", "t": rng.randrange(64), "b": rng.randrange(64),
                     "batch": rng.choice([0, 0, 1, 2, 3, 4, 5, 7, 11, 13, 14]),
-                    "how": rng.choice([0, 0, 0, 1, 2, 3]), "same": rng.randrange(2)}
+                    "how": rng.choice([0, 0, 0, 1, 2, 3]), "same": rng.randrange(2), "scr": rng.randrange(3)}
         if r < 0.76:
             return {"op": "edit", "b": rng.randrange(64), "exp": rng.randrange(3, 13), "seed": rng.getrandbits(16),
                     "one": rng.randrange(2)}
@@ -115,6 +115,7 @@ class ApplyHistory(Machine):
         self.ts = []   # dict(t=transform, kind, recipe, memo)
         self.bufs = []  # dict(a=array, edited, mix)
         self._last_pair = None
+        self.shared_S = None
         self._op_newt({"kind": self.cfg["kinds"][-1], "seed": self.cfg["layout"] ^ 5, "dst": 0})
         self._op_newbuf({"seed": self.cfg["layout"] ^ 9, "n": 1 + self.cfg["layout"] % 9, "mix": 0, "dst": 0})
 
@@ -123,16 +124,20 @@ class ApplyHistory(Machine):
         g = rs(seed)
         return self.S * g.uniform(0.8, 1.3) + g.uniform(-1.5, 1.5, size=self.S.shape) * 0.6 + g.uniform(-3, 3, size=2)
 
-    def _build(self, recipe):
+    def _build(self, recipe, shared_source=None):
+        """The oracle builds from private copies; the long-lived transforms of a history are all built on ONE
+        source PointCloud object (`shared_source`), the way a caller keeps one template shape."""
         if len(recipe) == 4:
             # ("inverse of", kind, seed, tseed): a fresh transform, inverted before it was ever applied
-            return self._build(recipe[1:]).pseudoinverse()
+            return self._build(recipe[1:], shared_source).pseudoinverse()
         kind, seed, tseed = recipe
-        S = PointCloud(self.S.copy())
+        S = PointCloud(self.S.copy()) if shared_source is None else shared_source
         if kind in ("PiecewiseAffine", "PythonPWA"):
             T = PointCloud(self._target(tseed))
             return (PiecewiseAffine if kind == "PiecewiseAffine" else PythonPWA)(S, T)
         if kind == "ThinPlateSplines":
+            if seed & 1:
+                return ThinPlateSplines(S, PointCloud(self._target(tseed)), kernel=R2LogRRBF(S.points.copy()))
             return ThinPlateSplines(S, PointCloud(self._target(tseed)))
         if kind == "R2LogR2RBF":
             return R2LogR2RBF(self.S.copy())
@@ -230,7 +235,11 @@ class ApplyHistory(Machine):
     def _op_newt(self, op):
         kind = KINDS[op["kind"] % len(KINDS)]
         recipe = (kind, op["seed"], op["seed"] ^ 0xABC)
-        e = {"t": self._build(recipe), "kind": kind, "recipe": recipe, "memo": "empty", "last": None,
+        if self.shared_S is None:
+            self.shared_S = PointCloud(self.S.copy())
+        elif kind in ("ThinPlateSplines", "PiecewiseAffine", "PythonPWA", "ChainPWAFirst", "ChainPWALast") or kind.startswith("Alignment"):
+            self.ctx.probe("several_transforms_built_on_one_source_object")
+        e = {"t": self._build(recipe, self.shared_S), "kind": kind, "recipe": recipe, "memo": "empty", "last": None,
              "raised": False, "copy": False}
         if len(self.ts) < POOL_T:
             self.ts.append(e)
@@ -430,6 +439,12 @@ class ApplyHistory(Machine):
             e["retargeted"] = False
         if e["copy"]:
             ctx.probe("apply_on_copy")
+        held = e.get("held")
+        if held is not None and held[0].flags.writeable and op.get("scr", 0) % 3 == 1:
+            # what apply() returned belongs to the caller, who goes on computing in it
+            held[0][...] = held[0] * 0.5 + 7.25
+            held[1] = held[0].copy()      # (the list is shared with copies of this entry)
+            ctx.probe("caller_edited_an_earlier_result_in_place")
         got, got_exc = None, None
         try:
             if how == 1:
@@ -447,12 +462,13 @@ class ApplyHistory(Machine):
             return
         ctx.out("apply", kind, batch, how, None if got is None else got, got_exc is not None)
         # what an earlier call returned must not be rewritten by this one (no shared work arrays)
-        held = e.get("held")
         if held is not None:
             ctx.require(np.array_equal(held[0], held[1]), "apply_pure", "earlier_result_overwritten_by_later_call_" + kind,
                         lambda: "the array returned by an earlier %s.apply() changed during a later call" % kind)
+            ctx.require(got is None or not np.shares_memory(got, held[0]), "apply_pure", "two_results_share_one_buffer_" + kind,
+                        lambda: "%s.apply() returned memory that an earlier call had already returned" % kind)
             ctx.probe("earlier_result_still_valid")
-        e["held"] = None if (got is None or np.shares_memory(got, a) or np.shares_memory(got, arg)) else (got, got.copy())
+        e["held"] = None if (got is None or np.shares_memory(got, a) or np.shares_memory(got, arg)) else [got, got.copy()]
         ctx.require(np.array_equal(arg, snapshot), "input_intact", "apply_modified_input_" + kind,
                     lambda: "%s.apply(batch=%r) modified the array it was given" % (kind, batch))
         e["last"] = (a, a.shape)
